@@ -43,12 +43,13 @@ def membership_sites(prog, pv, pv_local=None):
             # the union with the term's own id has to be visible between the read of all_parents and the test
             lsides = [pv_local.of_operand(b, a) for a in t.args] if pv_local is not None else sides
             roots = [root_roles(s) for s in sides]
-            tsets = ["all_parents" in term_fields(s) for s in lsides]
+            tsets = [bool(term_fields(s) & {"all_parents", "parents"}) for s in lsides]  # (the DIRECT parents where the closure is meant: a site, judged below)
             for i in (0, 1):
                 j = 1 - i
                 if roots[i] and tsets[j] and not roots[j]:
                     tf = term_fields(lsides[j])
                     incl = "id" in tf
+                    closure_read = "all_parents" in tf
                     fields = sorted(tf & {"all_parents", "parents", "id", "children"})
                     if not incl:
                         # the term's own id tested separately:  `root == term.id() || term.all_parents().contains(&root)`
@@ -60,7 +61,7 @@ def membership_sites(prog, pv, pv_local=None):
                                 if (er[0] and ei[1]) or (er[1] and ei[0]):
                                     incl = True
                                     fields = sorted(set(fields) | {"id (compared separately)"})
-                    out.append({"body": b, "term": t, "root": sorted(roots[i])[0], "inclusive": incl, "fields": fields})
+                    out.append({"body": b, "term": t, "root": sorted(roots[i])[0], "inclusive": incl and closure_read, "fields": fields})
                     break
     return out
 
